@@ -415,7 +415,64 @@ fn main() {
                     std::process::exit(3);
                 }
             }
+            // nesting depth is a budget per nesting level, not per filter: many groups one after the other must parse
+            let many = (0..150).map(|i| format!("(a{i} or b)")).collect::<Vec<_>>().join(" and ");
+            if let Err(e) = Filter::try_from(many.as_str()) {
+                println!("RESULT enum:filter-print-parse 150 parenthesised groups in sequence do not parse: {e}");
+                std::process::exit(3);
+            }
             println!("RESULT enum:filter-print-parse {} filters survive print-then-parse", texts.len());
+        }
+        // ---- C07 enumerator: a small universe of filters x records against an oracle written from the filter semantics; exit 3 on mismatch
+        "enum:filter-eval" => {
+            use libhaystack::filter::*;
+            use libhaystack::val::Dict;
+            fn walk<'a>(rec: &'a Dict, path: &[&str]) -> Option<&'a Value> {
+                let mut cur: Option<&Value> = None;
+                let mut d = rec;
+                for (i, seg) in path.iter().enumerate() {
+                    match d.get(*seg) { Some(v) if !v.is_null() => cur = Some(v), _ => return None }
+                    if i + 1 < path.len() { match cur { Some(Value::Dict(n)) => d = n, _ => return None } }
+                }
+                cur
+            }
+            let mut inner = Dict::new(); inner.insert("b".into(), Value::make_int(2)); inner.insert("m".into(), Value::Marker);
+            let mut r1 = Dict::new(); r1.insert("a".into(), Value::make_int(1)); r1.insert("b".into(), Value::make_str("s"));
+            let mut r2 = Dict::new(); r2.insert("a".into(), Value::make_dict(inner.clone()));
+            let r3 = Dict::new();
+            let mut r4 = Dict::new(); r4.insert("a".into(), Value::Null); r4.insert("b".into(), Value::make_int(5));
+            let mut r5 = Dict::new(); r5.insert("a".into(), Value::make_list(vec![Value::make_int(7), Value::make_int(1)])); r5.insert("x".into(), Value::Marker);
+            let recs = [r1, r2, r3, r4, r5];
+            let paths: [&[&str]; 5] = [&["a"], &["b"], &["a", "b"], &["a", "m"], &["a", "b", "c"]];
+            let num = |v: Option<&Value>, f: &dyn Fn(f64) -> bool| -> bool { match v {
+                Some(Value::Number(n)) => f(n.value),
+                Some(Value::List(l)) => l.iter().any(|e| matches!(e, Value::Number(n) if f(n.value))),
+                _ => false } };
+            let mut n = 0;
+            for rec in &recs { for p in paths {
+                let pt = p.join("->");
+                let v = walk(rec, p);
+                let cases: Vec<(String, bool)> = vec![
+                    (pt.clone(), v.is_some()),
+                    (format!("not {pt}"), v.is_none()),
+                    (format!("{pt} == 1"), num(v, &|x| x == 1.0)),
+                    (format!("{pt} < 2"), num(v, &|x| x < 2.0)),
+                    (format!("{pt} >= 2"), num(v, &|x| x >= 2.0)),
+                    (format!("{pt} and x"), v.is_some() && walk(rec, &["x"]).is_some()),
+                    (format!("{pt} or x"), v.is_some() || walk(rec, &["x"]).is_some()),
+                    (format!("not {pt} and not x or b"), (v.is_none() && walk(rec, &["x"]).is_none()) || walk(rec, &["b"]).is_some()),
+                ];
+                for (text, want) in cases {
+                    let f = Filter::try_from(text.as_str()).expect("filter text");
+                    let got = rec.filter(&f);
+                    n += 1;
+                    if got != want {
+                        println!("RESULT enum:filter-eval record={rec:?} filter={text:?} matched={got} expected={want}");
+                        std::process::exit(3);
+                    }
+                }
+            } }
+            println!("RESULT enum:filter-eval {n} filter x record cases agree with the oracle");
         }
         // ---- C06: RFC 3339 text -> DateTime keeps the instant (or is rejected); exit 3 = different instant
         "rfc3339" => {
